@@ -240,6 +240,8 @@ func main() {
 	for i, p := range cps {
 		roleOf[p] = roles[i]
 	}
+	localAcc := map[string]string{}     // local variable -> accessor of dep it holds
+	accessorOf := map[string][]string{} // normalised length atom -> accessors counted
 	var atom func(e ast.Expr) string
 	atom = func(e ast.Expr) string {
 		switch x := e.(type) {
@@ -266,11 +268,25 @@ func main() {
 			switch x.Op {
 			case token.GTR, token.GEQ, token.LSS, token.LEQ, token.EQL, token.NEQ:
 				l := strings.Join(strings.Fields(f.Src(x.X)), "")
+				// len(dep.<Accessor>()) or len(v) with v := dep.<Accessor>(): the atom is normalised to Outputs(), WHICH
+				// accessor is counted is a fact of its own (Outputs: declared + named + filegroup-derived; DeclaredOutputs:
+				// the plain outs list only)
+				acc := ""
 				for p, r := range roleOf {
-					if l == "len("+p+".Outputs())" && r == "dep" {
-						if n, ok := x.Y.(*ast.BasicLit); ok && n.Kind == token.INT {
-							return "len(dep.Outputs())" + x.Op.String() + n.Value
-						}
+					if r == "dep" && strings.HasPrefix(l, "len("+p+".") && strings.HasSuffix(l, "())") {
+						acc = l[len("len("+p+".") : len(l)-3]
+					}
+				}
+				if strings.HasPrefix(l, "len(") && strings.HasSuffix(l, ")") {
+					if a, ok := localAcc[l[4:len(l)-1]]; ok {
+						acc = a
+					}
+				}
+				if acc != "" {
+					if n, ok := x.Y.(*ast.BasicLit); ok && n.Kind == token.INT {
+						a := "len(dep.Outputs())" + x.Op.String() + n.Value
+						accessorOf[a] = append(accessorOf[a], acc)
+						return a
 					}
 				}
 				if id, ok := x.X.(*ast.Ident); ok && roleOf[id.Name] == "ep" {
@@ -293,44 +309,105 @@ func main() {
 		}
 		return []string{atom(e)}
 	}
-	first, ok := cr.Body.List[0].(*ast.IfStmt)
-	if !ok {
-		xlib.Unreadable("checkAndReplaceSequence: does not start with the guard chain")
-	}
+	// the guard chain(s): leading if/else-if statements whose branches all panic, possibly separated by plain
+	// `v := dep.Accessor()` assignments; everything from the first other statement on is the tail
 	var guards []string
-	for cur := first; cur != nil; {
-		if len(cur.Body.List) != 1 || !strings.HasPrefix(f.Src(cur.Body.List[0]), "panic(") {
-			xlib.Unreadable("checkAndReplaceSequence: a guard branch does not panic: %s", f.Src(cur.Cond))
-		}
-		as := conj(cur.Cond)
-		sort.Strings(as)
-		guards = append(guards, strings.Join(as, " && "))
-		switch e := cur.Else.(type) {
-		case nil:
-			cur = nil
-		case *ast.IfStmt:
-			cur = e
-		default:
-			xlib.Unreadable("checkAndReplaceSequence: guard chain ends in a plain else")
+	tailIdx := 0
+	depName := ""
+	for p, r := range roleOf {
+		if r == "dep" {
+			depName = p
 		}
 	}
+scan:
+	for i, st := range cr.Body.List {
+		tailIdx = i
+		switch x := st.(type) {
+		case *ast.AssignStmt:
+			if len(x.Lhs) == 1 && len(x.Rhs) == 1 && x.Tok == token.DEFINE {
+				src := strings.Join(strings.Fields(f.Src(x.Rhs[0])), "")
+				if id, ok := x.Lhs[0].(*ast.Ident); ok && strings.HasPrefix(src, depName+".") && strings.HasSuffix(src, "()") {
+					localAcc[id.Name] = src[len(depName)+1 : len(src)-2]
+					continue
+				}
+			}
+			break scan
+		case *ast.IfStmt:
+			for cur := x; cur != nil; {
+				if len(cur.Body.List) != 1 || !strings.HasPrefix(f.Src(cur.Body.List[0]), "panic(") {
+					if cur == x {
+						break scan // not a guard: the tail starts here
+					}
+					xlib.Unreadable("checkAndReplaceSequence: a guard branch does not panic: %s", f.Src(cur.Cond))
+				}
+				as := conj(cur.Cond)
+				sort.Strings(as)
+				guards = append(guards, strings.Join(as, " && "))
+				switch e := cur.Else.(type) {
+				case nil:
+					cur = nil
+				case *ast.IfStmt:
+					cur = e
+				default:
+					xlib.Unreadable("checkAndReplaceSequence: guard chain ends in a plain else")
+				}
+			}
+		default:
+			break scan
+		}
+	}
+	if len(guards) == 0 {
+		xlib.Unreadable("checkAndReplaceSequence: does not start with a guard chain")
+	}
+	one := func(atom string) string {
+		as := accessorOf[atom]
+		if len(as) == 0 {
+			return "none"
+		}
+		for _, a := range as {
+			if a != as[0] {
+				return "mixed"
+			}
+		}
+		return as[0]
+	}
+	out.Def("multiGuardAccessor", "String", xlib.LeanStr(one("len(dep.Outputs())>1")))
+	out.Def("zeroGuardAccessor", "String", xlib.LeanStr(one("len(dep.Outputs())==0")))
+	// which accessor the output loop ranges over
+	loopAcc := "none"
+	ast.Inspect(cr.Body, func(n ast.Node) bool {
+		if rs, ok := n.(*ast.RangeStmt); ok && loopAcc == "none" {
+			src := strings.Join(strings.Fields(f.Src(rs.X)), "")
+			if strings.HasPrefix(src, depName+".") && strings.HasSuffix(src, "()") {
+				loopAcc = src[len(depName)+1 : len(src)-2]
+			} else if a, ok := localAcc[src]; ok {
+				loopAcc = a
+			}
+		}
+		return true
+	})
+	out.Def("loopAccessor", "String", xlib.LeanStr(loopAcc))
 	out.Def("guards", "List String", xlib.LeanStrList(guards))
 	out.Def("passesChained", "Bool", xlib.LeanBool(chained))
 
 	// skeletons: the remaining code the model transcribes, with parameters named by position, locals by order
 	// of declaration and message texts blanked — insensitive to renaming, sensitive to any change of structure,
 	// operator, constant, call or order.
+	bt := xlib.Parse("src/core/build_target.go") // what Outputs() and DeclaredOutputs() consist of
 	for _, sk := range []struct {
 		name string
 		text string
 	}{
-		{"skelCheckTail", skeleton(f, cr, 1)},
+		{"skelCheckTail", skeleton(f, cr, tailIdx)},
 		{"skelFileDestination", skeleton(f, f.Func("fileDestination"), 0)},
 		{"skelHandleDir", skeleton(f, f.Func("handleDir"), 0)},
 		{"skelReplaceSequenceLabel", skeleton(f, f.Func("replaceSequenceLabel"), 0)},
 		{"skelReplaceSequence", skeleton(f, f.Func("replaceSequence"), 0)},
 		{"skelSplitEntryPoint", skeleton(f, f.Func("splitEntryPoint"), 0)},
 		{"skelSourcesOrTools", skeleton(f, f.Func("sourcesOrTools"), 0)},
+		{"skelOutputs", skeleton(bt, bt.Func("BuildTarget.Outputs"), 0)},
+		{"skelDeclaredOutputs", skeleton(bt, bt.Func("BuildTarget.DeclaredOutputs"), 0)},
+		{"skelFilegroupOutputs", skeleton(bt, bt.Func("BuildTarget.filegroupOutputs"), 0)},
 	} {
 		// the kernel compares short strings quickly, long ones not: the fact is the digest, the text is kept for the reader
 		sum := sha256.Sum256([]byte(sk.text))
